@@ -56,7 +56,8 @@ type LReply struct {
 	Code     int      `json:"code,omitempty"`
 	NCerts   int      `json:"ncerts,omitempty"`
 	Comments []string `json:"comments,omitempty"`
-	Noise    bool     `json:"noise,omitempty"` // comment lines, blank lines and CRLF line ends around the certificates
+	Noise    bool     `json:"noise,omitempty"`   // comment lines, blank lines and CRLF line ends around the certificates
+	CASigs   []string `json:"ca_sigs,omitempty"` // per certificate: CA key / signature format (see keys.CertSpec.CASig)
 }
 
 // LEndpoint is one simulated CA endpoint.
@@ -87,6 +88,9 @@ type LCfg struct {
 	// process (as gensign does for its telemetry exporter); SiblingFirst: built before the signer
 	Sibling      []int `json:"sibling,omitempty"`
 	SiblingFirst bool  `json:"sibling_first,omitempty"`
+	// SiblingDials: before the first Sign that other TLS client completes a TLS handshake of its own with every
+	// endpoint whose certificate its bundle accepts (a process talks to more than one service)
+	SiblingDials bool `json:"sibling_dials,omitempty"`
 }
 
 // LBackoff is one direct evaluation of the retry back-off.
@@ -118,6 +122,7 @@ type signerEnt struct {
 	signer    *crypki.Signer
 	err       error
 	clientDER [][]byte // the configured client certificate chain, leaf first
+	sibling   *tls.Config
 }
 
 var (
@@ -178,9 +183,11 @@ func getSigner(p *LPlan) *signerEnt {
 		fn := filepath.Join(dir, "sibling-ca.pem")
 		os.WriteFile(fn, b, 0o600)
 		// another TLS client of the same process with its own CA bundle; it is never used for signing
-		if _, err := tlsutils.TLSClientConfiguration(filepath.Join(dir, "client.crt"), filepath.Join(dir, "client.key"), []string{fn}); err != nil && ent.err == nil {
+		sc, err := tlsutils.TLSClientConfiguration(filepath.Join(dir, "client.crt"), filepath.Join(dir, "client.key"), []string{fn})
+		if err != nil && ent.err == nil {
 			ent.err = fmt.Errorf("sibling TLS client configuration: %v", err)
 		}
+		ent.sibling = sc
 	}
 	if p.Cfg.SiblingFirst {
 		sibling()
@@ -354,8 +361,8 @@ type signingServer struct {
 	ep *epState
 }
 
-func certLine(ep, attempt, i int, comment string) string {
-	c := keys.Cert(keys.CertSpec{KeyKind: keys.KindEd, KeyLabel: "l-user", CALabel: fmt.Sprintf("l-ca-%d", ep), KeyID: fmt.Sprintf("ep%d-attempt%d-cert%d", ep, attempt, i),
+func certLine(ep, attempt, i int, comment, casig string) string {
+	c := keys.Cert(keys.CertSpec{KeyKind: keys.KindEd, KeyLabel: "l-user", CALabel: fmt.Sprintf("l-ca-%d", ep), CASig: casig, KeyID: fmt.Sprintf("ep%d-attempt%d-cert%d", ep, attempt, i),
 		Serial: uint64(ep*1000 + attempt*10 + i), Principals: []string{"user"}, ValidBefore: ssh.CertTimeInfinity})
 	line := strings.TrimRight(string(ssh.MarshalAuthorizedKey(c)), "\n")
 	if comment != "" {
@@ -450,7 +457,11 @@ func (s *signingServer) PostUserSSHCertificate(ctx context.Context, req *pb.SSHC
 		if i < len(rep.Comments) {
 			cm = rep.Comments[i]
 		}
-		line := certLine(ep.idx, attempt, i, cm)
+		casig := ""
+		if i < len(rep.CASigs) {
+			casig = rep.CASigs[i]
+		}
+		line := certLine(ep.idx, attempt, i, cm, casig)
 		if rep.Noise {
 			line = strings.TrimRight(line, "\n") + "\r\n\r\n# next\r\n"
 		}
@@ -472,7 +483,7 @@ func tlsVersions(max string) (uint16, uint16) {
 	return tls.VersionTLS10, tls.VersionTLS13
 }
 
-func (n *network) startEndpoint(i int, e *LEndpoint, clientCA *ca) *epState {
+func (n *network) startEndpoint(i int, e *LEndpoint, clientCA *ca, clientChain bool) *epState {
 	host := hostOf(e.Name)
 	now := time.Now()
 	var cert tls.Certificate
@@ -483,6 +494,14 @@ func (n *network) startEndpoint(i int, e *LEndpoint, clientCA *ca) *epState {
 		cert = issue(issuer, label, []string{host}, now.Add(-24*time.Hour), now.Add(365*24*time.Hour), false)
 	case "other_ca":
 		cert = issue(newCA("foreign-ca"), label, []string{host}, now.Add(-24*time.Hour), now.Add(365*24*time.Hour), false)
+	case "client_ca":
+		// issued by the CA that issued the RA's own client certificate: a CA of the deployment, but not one of
+		// the configured server CA certificates
+		iss := clientCA
+		if clientChain {
+			iss = newIntermediate(clientCA, "client-intermediate")
+		}
+		cert = issue(iss, label, []string{host}, now.Add(-24*time.Hour), now.Add(365*24*time.Hour), false)
 	case "sibling_ca":
 		// issued by a CA that another TLS client of this process is configured with, not the signer
 		cert = issue(issuer, label, []string{host}, now.Add(-24*time.Hour), now.Add(365*24*time.Hour), false)
@@ -575,7 +594,33 @@ func execL(t *testing.T, raw json.RawMessage) *sim.Outcome {
 		clientCA := newCA("client-ca")
 		var eps []*epState
 		for i := range p.Endpoints {
-			eps = append(eps, n.startEndpoint(i, &p.Endpoints[i], clientCA))
+			eps = append(eps, n.startEndpoint(i, &p.Endpoints[i], clientCA, p.Cfg.ClientChain))
+		}
+		if p.Cfg.SiblingDials && ent.sibling != nil {
+			for i, e := range p.Endpoints {
+				if e.Identity != "sibling_ca" || e.Dial != "ok" {
+					continue
+				}
+				func() {
+					ctx, cancel := context.WithTimeout(context.Background(), 5*time.Second)
+					defer cancel()
+					raw, err := eps[i].ln.DialContext(ctx)
+					if err != nil {
+						return
+					}
+					defer raw.Close()
+					cfg := ent.sibling.Clone()
+					cfg.ServerName = hostOf(e.Name)
+					cfg.NextProtos = []string{"h2"}
+					tc := tls.Client(raw, cfg)
+					tc.SetDeadline(time.Now().Add(5 * time.Second))
+					if tc.HandshakeContext(ctx) == nil {
+						var buf [64]byte
+						tc.Read(buf[:]) // post-handshake messages (session tickets) are processed while reading
+						o.Probe("sibling_client_talked_to_its_server")
+					}
+				}()
+			}
 		}
 		signer := ent.signer.VerifWithDialOptions(grpc.WithContextDialer(n.dial))
 		for ci := 0; ci < ncalls; ci++ {
